@@ -16,10 +16,11 @@ from harness.props import c01
 
 LEAN_MODULES = ['Pycdlib.Props.C08']
 THEOREMS = ['Pycdlib.Susp.chunks_concat', 'Pycdlib.Susp.chunks_len', 'Pycdlib.Susp.addName_concat', 'Pycdlib.Susp.addName_piece_len',
-            'Pycdlib.Susp.put_cur_le', 'Pycdlib.Susp.findGap_sound', 'Pycdlib.Susp.addEntry_disjoint', 'Pycdlib.Susp.susp_consts_tie']
+            'Pycdlib.Susp.put_cur_le', 'Pycdlib.Susp.findGap_sound', 'Pycdlib.Susp.addEntry_disjoint', 'Pycdlib.Susp.susp_consts_tie',
+            'Pycdlib.Susp.sl_reassembles']
 PARTIAL = {
-    'link_roundtrip_partial': 'reassembly of split symlink components (slTarget ∘ newSymlink = id) is validated by S-fn over the '
-    'target-shape grid and by the reader on images, not yet proved',
+    'link_roundtrip': 'proved for the model of _new_symlink (sl_reassembles, every target and every amount of room left); that the '
+    'model is _new_symlink is the S-fn correspondence over the target-shape grid; the byte encoding of SL records is the reader',
     'reloc_tree': 'deep-directory relocation (CL/PL/RE) is checked by the reader on images only',
 }
 TRUSTED = ['Model/Reader.lean SUSP part as the independent RRIP reader']
